@@ -23,7 +23,7 @@ def compare(case, m, i):
 
 
 def explore(ctx):
-    reps = 6 if ctx.quick else 60
+    reps = 20 if ctx.quick else 400
     cases = []
     dist = {}
     k = 0
